@@ -46,7 +46,7 @@ def Good (h : Handler) (cfg : Cfg) (wr : Nat → Bool) (final : Nat → Option N
 
 structure Inv (h : Handler) (cfg : Cfg) (wr : Nat → Bool) (s : State) : Prop where
   good : ∀ i, Good h cfg wr s.final s.tmp s.lock (s.faulted i) i (s.pcs i)
-  pubBy : ∀ v c, s.final v = some c → cfg.tgt c = v ∧ isPost (s.pcs c) = true
+  pubBy : ∀ v c, s.final v = some c → cfg.tgt c = v ∧ isPost (s.pcs c) = true ∧ wr c = true
 
 variable {h : Handler} {cfg : Cfg} {wr : Nat → Bool}
 
@@ -95,7 +95,7 @@ theorem inv_of {s s' : State} {i : Nat} {f : Fault} {pc' : Pc} (hi : Inv h cfg w
     (hother : ∀ j, j ≠ i → Good h cfg wr s'.final s'.tmp s'.lock (s.faulted j) j (s.pcs j))
     (hself : Good h cfg wr s'.final s'.tmp s'.lock (s.faulted i || f.bad) i pc')
     (hpub : ∀ v c, s'.final v = some c → (s.final v = some c ∧ (c = i → isPost pc' = true)) ∨
-      (c = i ∧ cfg.tgt i = v ∧ isPost pc' = true)) :
+      (c = i ∧ cfg.tgt i = v ∧ isPost pc' = true ∧ wr i = true)) :
     Inv h cfg wr (go s' i f pc') := by
   constructor
   · intro j
@@ -105,12 +105,12 @@ theorem inv_of {s s' : State} {i : Nat} {f : Fault} {pc' : Pc} (hi : Inv h cfg w
     · simpa [hj] using hother j hj
   · intro v c hc
     simp only [go, hpcs, upd_apply] at hc ⊢
-    rcases hpub v c hc with ⟨h0, h1⟩ | ⟨rfl, h1, h2⟩
+    rcases hpub v c hc with ⟨h0, h1⟩ | ⟨rfl, h1, h2, h3⟩
     · have := hi.pubBy v c h0
       by_cases hci : c = i
-      · simp [hci, h1 hci]; rw [← hci]; exact this.1
+      · simp [hci, h1 hci]; rw [← hci]; exact ⟨this.1, this.2.2⟩
       · simp [hci, this]
-    · simp [h1, h2]
+    · simp [h1, h2, h3]
 
 variable {s : State} {i : Nat}
 
@@ -120,31 +120,32 @@ theorem inv_stay (hi : Inv h cfg wr s) (f : Fault) (pc' : Pc)
     (hpost : isPost (s.pcs i) = true → isPost pc' = true) : Inv h cfg wr (go s i f pc') := by
   refine inv_of hi rfl rfl (fun j _ => hi.good j) hself ?_
   intro v c hc
-  exact Or.inl ⟨hc, fun hci => hpost (by rw [← hci]; exact (hi.pubBy v c hc).2)⟩
+  exact Or.inl ⟨hc, fun hci => hpost (by rw [← hci]; exact (hi.pubBy v c hc).2.1)⟩
 
 /-- `i` publishes its manifest into its empty slot (nobody else is at the lock handler's put) -/
 theorem inv_publish (hi : Inv h cfg wr s) (f : Fault) (pc' : Pc) (hn : s.final (cfg.tgt i) = none)
     (hput : ∀ j, j ≠ i → s.pcs j ≠ .lkPut)
     (hself : Good h cfg wr (upd s.final (cfg.tgt i) (some i)) s.tmp s.lock (s.faulted i || f.bad) i pc')
-    (hpost : isPost pc' = true) : Inv h cfg wr (go (setFinal s (cfg.tgt i) i) i f pc') := by
+    (hpost : isPost pc' = true) (hw : wr i = true) : Inv h cfg wr (go (setFinal s (cfg.tgt i) i) i f pc') := by
   refine inv_of hi rfl rfl (fun j hj => good_publish _ _ hn (hi.good j) (hput j hj)) hself ?_
   intro v c hc
   simp only [setFinal, upd_apply] at hc
   split at hc
-  · rename_i hv; simp only [Option.some.injEq] at hc; exact Or.inr ⟨hc.symm, hv.symm, hpost⟩
+  · rename_i hv; simp only [Option.some.injEq] at hc; exact Or.inr ⟨hc.symm, hv.symm, hpost, hw⟩
   · exact Or.inl ⟨hc, fun _ => hpost⟩
 
 /-- … and its staging object disappears in the same call (rename) -/
 theorem inv_publish_mv (hi : Inv h cfg wr s) (f : Fault) (pc' : Pc) (hn : s.final (cfg.tgt i) = none)
     (hput : ∀ j, j ≠ i → s.pcs j ≠ .lkPut)
     (hself : Good h cfg wr (upd s.final (cfg.tgt i) (some i)) (upd s.tmp i false) s.lock (s.faulted i || f.bad) i pc')
-    (hpost : isPost pc' = true) : Inv h cfg wr (go (setTmp (setFinal s (cfg.tgt i) i) i false) i f pc') := by
+    (hpost : isPost pc' = true) (hw : wr i = true) :
+    Inv h cfg wr (go (setTmp (setFinal s (cfg.tgt i) i) i false) i f pc') := by
   refine inv_of hi rfl rfl
     (fun j hj => good_tmp _ hj (good_publish _ _ hn (hi.good j) (hput j hj))) hself ?_
   intro v c hc
   simp only [setTmp, setFinal, upd_apply] at hc
   split at hc
-  · rename_i hv; simp only [Option.some.injEq] at hc; exact Or.inr ⟨hc.symm, hv.symm, hpost⟩
+  · rename_i hv; simp only [Option.some.injEq] at hc; exact Or.inr ⟨hc.symm, hv.symm, hpost, hw⟩
   · exact Or.inl ⟨hc, fun _ => hpost⟩
 
 /-- the staging object of `i` appears / disappears -/
@@ -153,7 +154,7 @@ theorem inv_tmp (hi : Inv h cfg wr s) (f : Fault) (pc' : Pc) (b : Bool)
     (hpost : isPost (s.pcs i) = true → isPost pc' = true) : Inv h cfg wr (go (setTmp s i b) i f pc') := by
   refine inv_of hi rfl rfl (fun j hj => good_tmp _ hj (hi.good j)) hself ?_
   intro v c hc
-  exact Or.inl ⟨hc, fun hci => hpost (by rw [← hci]; exact (hi.pubBy v c hc).2)⟩
+  exact Or.inl ⟨hc, fun hci => hpost (by rw [← hci]; exact (hi.pubBy v c hc).2.1)⟩
 
 /-- the free lock is granted -/
 theorem inv_acquire (hi : Inv h cfg wr s) (f : Fault) (pc' : Pc) (l : Option Nat) (hfree : s.lock = none)
@@ -161,7 +162,7 @@ theorem inv_acquire (hi : Inv h cfg wr s) (f : Fault) (pc' : Pc) (l : Option Nat
     (hpost : isPost (s.pcs i) = true → isPost pc' = true) : Inv h cfg wr (go (setLock s l) i f pc') := by
   refine inv_of hi rfl rfl (fun j _ => good_acquire l (by have := hi.good j; rwa [hfree] at this)) hself ?_
   intro v c hc
-  exact Or.inl ⟨hc, fun hci => hpost (by rw [← hci]; exact (hi.pubBy v c hc).2)⟩
+  exact Or.inl ⟨hc, fun hci => hpost (by rw [← hci]; exact (hi.pubBy v c hc).2.1)⟩
 
 /-- the lock held by `i` is returned -/
 theorem inv_release (hi : Inv h cfg wr s) (f : Fault) (pc' : Pc) (l : Option Nat) (hheld : s.lock = some i)
@@ -169,6 +170,6 @@ theorem inv_release (hi : Inv h cfg wr s) (f : Fault) (pc' : Pc) (l : Option Nat
     (hpost : isPost (s.pcs i) = true → isPost pc' = true) : Inv h cfg wr (go (setLock s l) i f pc') := by
   refine inv_of hi rfl rfl (fun j hj => good_release l hj (by have := hi.good j; rwa [hheld] at this)) hself ?_
   intro v c hc
-  exact Or.inl ⟨hc, fun hci => hpost (by rw [← hci]; exact (hi.pubBy v c hc).2)⟩
+  exact Or.inl ⟨hc, fun hci => hpost (by rw [← hci]; exact (hi.pubBy v c hc).2.1)⟩
 
 end LanceModel.C02
